@@ -44,6 +44,14 @@ func (sc *SpecCtx) lookupTypeName(name string) *types.Named {
 	if n := sc.lookupLocalTypeName(name); n != nil {
 		return n
 	}
+	if sc.pkg != nil && sc.pkg.Types != nil {
+		if sc.pkg.Types.Scope().Lookup(name) != nil {
+			return nil // a non-struct object of that name in scope
+		}
+	}
+	if n := sc.c.e.findNamedStruct(name, nil); n != nil {
+		return n
+	}
 	// a dependency struct declared `transparent pkg.Name` may be named by its bare name
 	var hit *types.Named
 	for q := range sc.c.e.d.transparent {
@@ -218,9 +226,15 @@ func (sc *SpecCtx) eval(e SExpr) Term {
 				for _, pe := range pat {
 					ts = append(ts, sc.with(env).eval(pe).S)
 				}
-				ps = append(ps, ":pattern ("+strings.Join(ts, " ")+")")
+				p := ":pattern (" + strings.Join(ts, " ") + ")"
+				if strings.Contains(p, "(ite ") || strings.Contains(p, "(and ") || strings.Contains(p, "(or ") || strings.Contains(p, "(= ") {
+					continue // solvers reject ite / connectives inside patterns
+				}
+				ps = append(ps, p)
 			}
-			b = "(! " + b + " " + strings.Join(ps, " ") + ")"
+			if len(ps) > 0 {
+				b = "(! " + b + " " + strings.Join(ps, " ") + ")"
+			}
 		}
 		return Term{S: fmt.Sprintf("(%s (%s) %s)", q, strings.Join(binds, " "), b), Sort: sBool}
 	case *SLet:
@@ -628,6 +642,14 @@ func (sc *SpecCtx) evalCall(x *SCall) Term {
 		gt := c.e.parseGhostType("seq["+specTypeString(x.Args[0])+"]", sc.pkg, sc.pos)
 		so := c.e.ghostSort(gt)
 		return Term{S: d.zero(so), Sort: so}
+	case "fresh":
+		// allocated now, not allocated in the old state (the argument is evaluated in the current state)
+		argn(1)
+		if sc.old == nil {
+			sc.fail("fresh() not available here")
+		}
+		v := sc.eval(x.Args[0])
+		return Term{S: sAnd(sSel(c.allocArr(sc.st).S, v.S), sNot(sSel(c.allocArr(sc.old).S, v.S))), Sort: sBool}
 	case "isalloc":
 		argn(1)
 		v := sc.eval(x.Args[0])
